@@ -41,7 +41,44 @@ def rel_terms(rng, vs_all, must, pt, n):
 
 
 def gen_pair(rng: random.Random, overlap: float = 0.15) -> Tuple[dict, dict, str]:
-    w = rng.choice(["independent", "cascade", "cascade", "cascade-rev", "shared-in", "feedback", "feedback-free", "multi", "kay3"])
+    w = rng.choice(["independent", "cascade", "cascade", "cascade-rev", "shared-in", "feedback", "feedback-free", "multi", "kay3", "mutual", "near-asm"])
+    if w == "near-asm":
+        # the consumer's assumption is ALMOST a producer guarantee (one coefficient 6e-6 .. 1e-5 away, relative): it must be
+        # discharged semantically (leaving a small-coefficient assumption on the shared input), never dropped as "the same term"
+        k0 = float(rng.randint(-2, 4))
+        ci = float(rng.choice([1, 2, 3])) * rng.choice([-1.0, 1.0])
+        sx = rng.choice([1.0, -1.0])
+        d = rng.choice([6e-6, 7.5e-6, 1e-5]) * rng.choice([-1.0, 1.0])
+        c1 = {"ins": ["i"], "outs": ["x"], "a": [] if rng.random() < 0.5 else [{"c": {"i": rng.choice([1.0, -1.0])}, "k": float(rng.randint(1, 5))}],
+              "g": [{"c": {"x": sx, "i": ci}, "k": k0}]}
+        if rng.random() < 0.5:
+            c1["g"].append({"c": {"x": -sx}, "k": float(rng.randint(0, 5))})
+        c2 = {"ins": ["x", "i"], "outs": ["o"], "a": [{"c": {"x": sx, "i": ci * (1.0 + d)}, "k": k0}],
+              "g": [{"c": {"o": 1.0, "x": -1.0}, "k": float(rng.randint(0, 3))}]}
+        if rng.random() < 0.5:
+            c1, c2 = c2, c1
+        return c1, c2, w
+    if w == "mutual":
+        # the consumer assumes two bounds on the same internal variable in the same direction (x + y <= 6, y <= 5); the producer
+        # bounds x but y only through a chain of its outputs, or not at all: each assumption may only be discharged with the
+        # ALREADY TRANSFORMED siblings as helpers, never with the original ones (circular reasoning)
+        sg = rng.choice([1.0, -1.0])
+        k = lambda: float(rng.choice([1, 2, 3]))  # noqa: E731
+        c1 = {"ins": ["i"], "outs": ["x", "y", "q"], "a": [{"c": {"i": sg}, "k": float(rng.randint(0, 4))}] if rng.random() < 0.6 else [],
+              "g": [{"c": {"x": sg * k(), "i": -sg * k()}, "k": float(rng.randint(0, 3))}]}
+        r = rng.random()
+        if r < 0.4:
+            c1["g"] += [{"c": {"y": sg, "q": -sg}, "k": float(rng.randint(0, 2))}, {"c": {"q": sg, "i": -sg}, "k": float(rng.randint(0, 2))}]
+        elif r < 0.55:
+            c1["g"] += [{"c": {"y": sg * k(), "i": -sg * k()}, "k": float(rng.randint(0, 3))}]
+        c2 = {"ins": ["x", "y"], "outs": ["o"],
+              "a": [{"c": {"x": sg * k(), "y": sg * k()}, "k": float(rng.randint(2, 8))}, {"c": {"y": sg * k()}, "k": float(rng.randint(1, 6))}],
+              "g": [{"c": {"o": 1.0, "x": -1.0}, "k": float(rng.randint(0, 3))}]}
+        if rng.random() < 0.3:
+            c2["a"].reverse()
+        if rng.random() < 0.5:
+            c1, c2 = c2, c1
+        return c1, c2, w
     if w == "kay3":
         # three internal variables; the producer bounds them below through a diagonally dominant (or just not dominant) system,
         # the consumer's guarantee sums them: the composition must relax it through all three rows or drop it
